@@ -130,7 +130,7 @@ class MixedName(NameWrapper):
         tree_value = self._parent_tree_value
         if tree_value.is_instance() or tree_value.is_class():
             tree_values = tree_value.py__getattribute__(self.string_name)
-            if compiled_value.is_function():
+            if compiled_value.is_function() and tree_values:
                 return ValueSet({MixedObject(compiled_value, v) for v in tree_values})
 
         module_context = tree_value.get_root_context()
